@@ -8,7 +8,7 @@ import (
 	"go/token"
 	"go/types"
 
-	"golang.org/x/tools/go/ssa"
+	"gclverify/xt/ssa"
 )
 
 func (p *Prog) coreNamed(name string) *types.Named { return p.Named("core", name) }
